@@ -194,8 +194,16 @@ func (pb *PrimaryBlock) UnmarshalCbor(r io.Reader) error {
 
 	if crcT, err := cboring.ReadUInt(r); err != nil {
 		return err
+	} else if crcT > uint64(CRC32) {
+		return fmt.Errorf("unknown CRC type %d", crcT)
 	} else {
 		pb.CRCType = CRCType(crcT)
+	}
+
+	// The CRC field is present if and only if a CRC type is announced. Otherwise a block could claim a CRC which
+	// is never checked.
+	if hasCRCField := blockLen == 9 || blockLen == 11; hasCRCField != pb.HasCRC() {
+		return fmt.Errorf("array with %d elements does not match CRC type %v", blockLen, pb.CRCType)
 	}
 
 	eids := []*EndpointID{&pb.Destination, &pb.SourceNode, &pb.ReportTo}
